@@ -146,3 +146,6 @@ Definition chk_signed_data_path (c : list bytes * bool * bytes * bytes * list (b
   let '(chunks, ih, hname, nsb, digests, got) := c in
   obytes_eqb (signed_data_src (hash_of digests) (MPath chunks) ih hname nsb) got.
 
+(* option name as written in an allowed-signers line -> which option the parser files it under *)
+Definition chk_as_opt (c : list Z * Z) : bool := let '(n, got) := c in as_opt_code (as_opt_kind n) =? got.
+
